@@ -39,7 +39,7 @@ def check(ctx):
     ctx.rule("C05-R3", "dist_mic_triclinic and dist_mic_triclinic_t are identical after the load of the two positions; the numpy reference functions share one wrap / search scheme")
     ctx.rule("C05-R4", "box reduced (c -= b*round(c_y/b_y); c -= a*round(c_x/a_x); b -= a*round(b_x/a_x)), wrap order c,b,a, image loops enumerate exactly {-1,0,1}^3, candidate = r + x*a + y*b + z*c")
     ctx.rule("C05-R5", "at every extern call in _geometry.pyx the k-th argument is the variable the k-th C parameter names (alias table for out / n_times); pointer const-ness is respected")
-    dispatch(ctx, "C05-R1", [(DIST, "compute_distances_core"), (DIST, "compute_distances_t"), (DIST, "compute_displacements")])
+    dispatch_eval(ctx, "C05-R1", [(DIST, "compute_distances_core"), (DIST, "compute_distances_t"), (DIST, "compute_displacements")])
     wrappers(ctx, "C05-R1", ["_dist_mic", "_dist_mic_t", "_dist_mic_displacement"])
     _kernels(ctx)
     kernels_value(ctx)
@@ -504,3 +504,124 @@ def no_foreign_attribute_stores(ctx, rule, rels, floor=1):
                    "`%s` is stored on an object passed in by the caller: a memo kept on a Topology / Trajectory outside its class is never invalidated when the object is edited" % (bad[0][2] if bad else ""))
     if n_fn < floor:
         raise AnalysisError("no_foreign_attribute_stores: %d functions in %s" % (n_fn, rels))
+
+
+# ---------------------------------------------------------------------------------------------------
+def dispatch_eval(ctx, rule, funcs):
+    """The geometry dispatchers evaluated (sa/tensym.py) on a model trajectory for every combination of (periodic truthy / falsy, cell present
+    / absent, opt): exactly one kernel is called; with periodic and a cell it is a minimum-image kernel that receives the coordinates, the
+    indices, the box with box[f] = unitcell_vectors[f] transposed and - for the compiled kernels and the box-taking references - the flag
+    np.allclose(<cell angles of every frame>, 90); otherwise the plain kernel without a box (or the reference that is handed the trajectory
+    and the caller's `periodic`).  What is returned is the array the kernel filled, or the reference's result."""
+    from ..tensym import TenSym, Ten, Obj, Unsupported as TUnsupported, ShapeError
+    from ..poly import Poly, Rat
+    F_, A_ = 2, 5
+    for rel, q in funcs:
+        fn = ctx.py.func(rel, q)
+        ctx.analysed_functions.add(rel + ":" + q)
+        ps = params(fn)
+        mod = ctx.py.mod(rel)
+        # the kernels this function can call: compiled ones (_geometry.*) and the module's own reference implementations (_name)
+        knames = sorted({call_name(c) for c in ast.walk(fn) if isinstance(c, ast.Call) and call_name(c) and (call_name(c).startswith("_geometry.") or (call_name(c).startswith("_") and call_name(c) in mod.functions))})
+        width = {"angle_indices": 3, "indices": 4}.get(ps[1], 2)
+        idx = Ten((2, width), [Rat(Poly.const(v)) for v in ([0, 1, 2, 3][:width] + [1, 2, 3, 4][:width])])
+        problems = []
+        undecided = []
+        n_cfg = 0
+        for periodic in (True, 1, False, 0):
+            for cell in (True, False):
+                for opt in (True, False):
+                    n_cfg += 1
+                    xyz = Ten.sym("x", (F_, A_, 3))
+                    box = Ten.sym("box", (F_, 3, 3)) if cell else None
+                    ang = Ten.sym("ang", (F_, 3)) if cell else None
+                    traj = Obj(xyz=xyz, _xyz=xyz, unitcell_vectors=box, unitcell_angles=ang, _have_unitcell=cell, n_atoms=A_, n_frames=F_)
+                    calls = []
+                    flags = []
+
+                    def rec(name):
+                        def f(ev_, call):
+                            args = [ev_.ex(a) for a in call.args]
+                            res = Ten.sym("ret_" + name.replace(".", "_"), (F_, 2))
+                            calls.append((name, args, res))
+                            return None if name.startswith("_geometry.") else res
+                        return f
+
+                    def allclose(ev_, call):
+                        a0, a1 = ev_.ex(call.args[0]), ev_.ex(call.args[1])
+                        flag = Obj(tag="orthogonal", of=a0, ref=a1, extra=[src(x) for x in call.args[2:]] + ["%s=%s" % (k.arg, src(k.value)) for k in call.keywords])
+                        flags.append(flag)
+                        return flag
+
+                    def to_angles(ev_, call):
+                        v = ev_.call_args(call)[0]
+                        import re as _re
+                        m = _re.match(r"box\[(\d+),", repr(v.data[0])) if isinstance(v, Ten) else None
+                        f_ = int(m.group(1)) if m else -1
+                        return tuple([Rat(Poly.var("len[%d,%d]" % (f_, k))) for k in range(3)] + [Rat(Poly.var("ang[%d,%d]" % (f_, k))) for k in range(3)])
+                    models = {k: rec(k) for k in knames}
+                    models.update({"np.allclose": allclose, "box_vectors_to_lengths_and_angles": to_angles})
+                    ev = TenSym({}, models=models)
+                    given = {ps[1]: Ten(idx.shape, idx.data), "periodic": periodic, "opt": opt}
+                    if ps[0] in ("traj", "trajectory"):
+                        given[ps[0]] = traj
+                    else:
+                        given[ps[0]] = xyz
+                        if "unitcell_vectors" in ps:
+                            given["unitcell_vectors"] = box
+                    if "time_pairs" in ps:
+                        given["time_pairs"] = Ten((2, 2), [Rat(Poly.const(v)) for v in (0, 0, 1, 0)])     # the second column alone does not reach every frame
+                    tagc = "periodic=%r, cell %s, opt=%s" % (periodic, "present" if cell else "absent", opt)
+                    try:
+                        got = ev.run_fn(fn, **given)
+                    except ShapeError as e:
+                        problems.append("%s: array operations do not fit: %s" % (tagc, e))
+                        continue
+                    except TUnsupported as e:
+                        undecided.append("%s: %s" % (tagc, e))
+                        continue
+                    if len(calls) != 1:
+                        problems.append("%s: %d kernels called (%s)" % (tagc, len(calls), [c[0] for c in calls]))
+                        continue
+                    name, args, res = calls[0]
+                    mic = bool(periodic) and cell
+                    takes_traj = any(a is traj for a in args)
+                    boxes = [a for a in args if isinstance(a, Ten) and a.shape == (F_, 3, 3) and "box" in repr(a.data[0])]
+                    if opt != name.startswith("_geometry."):
+                        problems.append("%s: %s is called (opt selects the compiled kernel, opt=False the reference)" % (tagc, name))
+                    if takes_traj:
+                        # a reference that looks at the trajectory itself: it must be told the caller's choice
+                        if not any(a is periodic for a in args):
+                            problems.append("%s: %s is handed the trajectory but not the caller's `periodic`" % (tagc, name))
+                    elif mic:
+                        if "mic" not in name:
+                            problems.append("%s: the plain kernel %s is called although a cell is present and periodic is true" % (tagc, name))
+                        if len(boxes) != 1 or ev.first_difference(boxes[0], box.transpose((0, 2, 1))) is not None:
+                            problems.append("%s: %s does not receive the box as unitcell_vectors[f] transposed" % (tagc, name))
+                        fl = [a for a in args if isinstance(a, Obj) and getattr(a, "tag", None) == "orthogonal"]
+                        if len(fl) != 1:
+                            problems.append("%s: %s does not receive the orthogonal flag" % (tagc, name))
+                        else:
+                            of = fl[0].of
+                            names_ = sorted(repr(x) for x in ev.to_ten(of).data) if isinstance(of, (Ten, list, tuple)) else []
+                            want_ = sorted("ang[%d,%d]" % (f_, k) for f_ in range(F_) for k in range(3))
+                            if fl[0].extra:
+                                problems.append("%s: the orthogonal flag is computed with non-default tolerances (%s): cells that are not rectangular are sent through the rectangular kernel" % (tagc, ", ".join(fl[0].extra)))
+                            if names_ != want_ or ev.pyval(fl[0].ref) != 90:
+                                problems.append("%s: the orthogonal flag is allclose(%s, %s); it must look at the three angles of every frame" % (tagc, names_[:4], fl[0].ref))
+                    else:
+                        if "mic" in name or boxes:
+                            problems.append("%s: %s is called%s although %s" % (tagc, name, " with a box" if boxes else "", "periodic is false" if cell else "there is no cell"))
+                    if not any(isinstance(a, Ten) and ev.first_difference(a, xyz) is None for a in args) and not takes_traj:
+                        problems.append("%s: %s does not receive the coordinates" % (tagc, name))
+                    if not any(isinstance(a, Ten) and a.shape == idx.shape and ev.first_difference(a, idx) is None for a in args):
+                        problems.append("%s: %s does not receive the index array" % (tagc, name))
+                    outs = [a for a in args if isinstance(a, Ten) and not a.view and a is got]
+                    same_buffer = isinstance(got, Ten) and any(isinstance(a, Ten) and len(a.data) == len(got.data) and "undef#" in repr(a.data[0]) and all(repr(x) == repr(y) for x, y in zip(a.data, got.data)) for a in args)
+                    if not (got is res or outs or same_buffer):
+                        problems.append("%s: the value returned is neither the array %s filled nor its result" % (tagc, name))
+        if undecided and not problems:
+            ctx.undecided(rule, fn, rel, q, "dispatch over periodic x cell x opt", "not evaluable: " + "; ".join(undecided[:2]))
+            continue
+        ctx.decide(not problems, rule, fn, rel, q, "dispatch over periodic x cell x opt (%d configurations, kernels %s)" % (n_cfg, ", ".join(k.replace("_geometry.", "") for k in knames)), "",
+                   "; ".join(problems[:3]) + (" (+%d more)" % (len(problems) - 3) if len(problems) > 3 else ""))
